@@ -72,7 +72,7 @@ def impl_case(case):
                     else:
                         from bioscrape.simulator import py_simulate_model
                         py_simulate_model(np.linspace(0, 1, 3), Model=M2, stochastic=False)
-                    later.append([attempt, "accepted"])
+                    later.append([attempt, "accepted"]); break       # already a violation: do not go on to simulate an unchecked model
                 except ValueError: later.append([attempt, "ValueError"])
                 except Exception as e2: later.append([attempt, type(e2).__name__])
         except Exception as e3: later.append(["construction without initialisation", type(e3).__name__])
